@@ -18,7 +18,7 @@ Definition is_pstr (x : pv) : bool := match x with PStr _ => true | _ => false e
 Definition is_i32ty (e : fty) : bool := match e with FI32 | FEnum _ => true | _ => false end.
 Definition is_binty (e : fty) : bool := match e with FBinary | FString => true | _ => false end.
 
-Fixpoint typed_ok (T : idl) (d : nat) (t : fty) (sel : N) (v : pv) {struct d} : bool :=
+Fixpoint typed_ok (T : idl) (ids : list Z) (d : nat) (t : fty) (sel : N) (v : pv) {struct d} : bool :=
   match d with
   | O => false
   | S d' =>
@@ -39,7 +39,7 @@ Fixpoint typed_ok (T : idl) (d : nat) (t : fty) (sel : N) (v : pv) {struct d} : 
           | PStr _ :: _ => is_binty e && forallb is_pstr l
           | PDict _ _ _ :: _ =>
               match e with
-              | FStruct _ => forallb (fun x => match x with PDict _ _ _ => typed_ok T d' e 0 x | _ => false end) l
+              | FStruct _ => forallb (fun x => match x with PDict _ _ _ => typed_ok T ids d' e 0 x | _ => false end) l
               | _ => false
               end
           | _ => false
@@ -56,12 +56,12 @@ Fixpoint typed_ok (T : idl) (d : nat) (t : fty) (sel : N) (v : pv) {struct d} : 
                               | None => true
                               | Some PNone => true
                               | Some x => match find_field (s_fields sd) (Z.to_N i) with
-                                          | Some f => typed_ok T d' (f_ty f) (int_nib i32 i32l i) x
+                                          | Some f => typed_ok T ids d' (f_ty f) (int_nib i32 i32l i) x
                                           | None => false
                                           end
-                              end) ids13
-            && forallb (fun f => negb (f_req f =? 1) || (existsb (Z.eqb (Z.of_N (f_id f))) ids13 && present fs (Z.of_N (f_id f)))) (s_fields sd)
-            && (negb (s_union sd) || (List.length (filter (present fs) ids13) =? 1)%nat)
+                              end) ids
+            && forallb (fun f => negb (f_req f =? 1) || (existsb (Z.eqb (Z.of_N (f_id f))) ids && present fs (Z.of_N (f_id f)))) (s_fields sd)
+            && (negb (s_union sd) || (List.length (filter (present fs) ids) =? 1)%nat)
           end
         | _ => false
         end
